@@ -656,7 +656,10 @@ class ObjectIdentifier(DERType):
         components[0:1] = list(divmod(first, 40)) if first < 80 \
             else [2, first-80]
 
-        return cls('.'.join(str(c) for c in components))
+        try:
+            return cls('.'.join(str(c) for c in components))
+        except ValueError:
+            raise ASN1DecodeError('Component too large') from None
 
 
 def der_encode(value: object) -> bytes:
